@@ -28,9 +28,10 @@ def is_sub(t, want):
     return any(s == want for s in subterms(t))
 
 
-def coroutine_paths(ctx, prog, f):
+def coroutine_paths(ctx, prog, f, max_paths=20000):
     """ready-paths of an async body from its initial state"""
-    ex = Exec(prog, models=models.MODELLED, inline=lambda g, d: bool(re.search(r'\{closure', g.name)) and 'async' not in g.name and 'join' not in g.name)
+    ex = Exec(prog, models=models.MODELLED, inline=lambda g, d: bool(re.search(r'\{closure', g.name)) and 'async' not in g.name and 'join' not in g.name,
+              max_paths=max_paths)
     st = State()
     st.mem['co'] = VSym(('leaf', 'co'), 'coroutine')
     st.pc.append(ex.discr_var(('leaf', 'co')) == 0)
